@@ -430,9 +430,9 @@ func (fc *FnCtx) execIndexAddr(fr *Frame, st *State, x *ssa.IndexAddr) Val {
 		// slice of struct values: element is a reference into the element heap
 		_ = n
 		h := fc.heapRaw(st, elemHeapName(SInt), arrSort(SInt, arrSort(SInt, SInt)))
-		return tSelect(tSelect(h, slArr(sl)), tAdd(slOff(sl), idx))
+		return tSelect(tSelect(h, slArr(sl)), tIx(slOff(sl), idx))
 	}
-	return &PtrVal{Kind: PElem, Arr: slArr(sl), I: fc.nameTerm("ix", tAdd(slOff(sl), idx)), Heap: elemHeapName(es), HSort: es, Typ: elem}
+	return &PtrVal{Kind: PElem, Arr: slArr(sl), I: tIx(slOff(sl), idx), Heap: elemHeapName(es), HSort: es, Typ: elem}
 }
 
 func constInt(c *ssa.Const) (int64, bool) {
@@ -495,7 +495,7 @@ func (fc *FnCtx) execSlice(fr *Frame, st *State, x *ssa.Slice) Val {
 					arr := fc.allocRef(st)
 					content := tSelect(h, arr)
 					for i, e := range av0.Elems {
-						content = tStore(content, intLit(int64(i)), e.(Term))
+						content = tStore(content, tIx(intLit(0), intLit(int64(i))), e.(Term))
 					}
 					fc.setHeap(st, hn, tStore(h, arr, content))
 					return fc.nameTerm("lit", mkSlice(arr, intLit(int64(lo)), intLit(int64(hi-lo)), intLit(int64(len(av0.Elems)-lo))))
@@ -527,7 +527,7 @@ func (fc *FnCtx) execSlice(fr *Frame, st *State, x *ssa.Slice) Val {
 			arr := fc.allocRef(st)
 			content := tSelect(h, arr)
 			for i, e := range av.Elems {
-				content = tStore(content, intLit(int64(i)), e.(Term))
+				content = tStore(content, tIx(intLit(0), intLit(int64(i))), e.(Term))
 			}
 			fc.setHeap(st, hn, tStore(h, arr, content))
 			n := intLit(int64(len(av.Elems)))
